@@ -2,7 +2,7 @@
    request actually put on the wire is captured in the arena and judged with the decoder below). *)
 From Coq Require Import List Bool NArith Lia.
 From Coq Require Import String.
-From OAS Require Import Model.Wire Proof.Wire Gen.Params.
+From OAS Require Import Model.Wire Proof.Wire Gen.Params Model.ParamMerge Proof.ParamMerge.
 Import ListNotations.
 Local Open Scope N_scope.
 
@@ -61,7 +61,45 @@ Example C03_nonvacuous :
   /\ split 124 [97; 124; 98] = [[97]; [98]].
 Proof. vm_compute. repeat split; reflexivity. Qed.
 
+(* ---- which parameter declarations an operation has (Model/ParamMerge.v, converter/parameters.rs collect_parameters):
+   the path item's parameters, each replaced by an operation-level parameter of the same (location, name). *)
+(* exact membership: a declaration survives iff it is the last operation-level declaration of its key, or a
+   path-item declaration whose key no operation-level parameter has *)
+Theorem C03_param_merge_spec : forall item ops q,
+  In q (collect_parameters item ops) <->
+  (exists pre post, ops = (pre ++ q :: post)%list /\ has_key q post = false) \/ (In q item /\ has_key q ops = false).
+Proof. exact collect_spec. Qed.
+(* no (location, name) is declared twice in the result when the path item's own list has no duplicate *)
+Theorem C03_param_merge_unique : forall item ops, keys_nodup item = true -> keys_nodup (collect_parameters item ops) = true.
+Proof. exact collect_nodup. Qed.
+(* every operation-level parameter is kept; a path-item parameter with the same key is not (unless it is that very value) *)
+Theorem C03_param_op_level_wins : forall item ops p, In p ops -> keys_nodup ops = true -> In p (collect_parameters item ops).
+Proof. exact op_level_wins. Qed.
+Theorem C03_param_item_level_overridden : forall item ops q p,
+  In q item -> In p ops -> same_key q p = true -> In q (collect_parameters item ops) -> In q ops.
+Proof. exact item_level_overridden. Qed.
+
+Check C03_param_merge_spec : forall item ops q,
+  In q (collect_parameters item ops) <->
+  (exists pre post, ops = (pre ++ q :: post)%list /\ has_key q post = false) \/ (In q item /\ has_key q ops = false).
+
+(* tie to the source: Gen/Params.v (regenerated, fails closed) records the shape of collect_parameters that add_param /
+   collect_parameters mirror *)
+Example C03_param_merge_from_source :
+  param_merge_rule = ["path item first"; "operation level replaces same (location, name)"; "appended"]%string.
+Proof. reflexivity. Qed.
+
+Example C03_param_merge_nonvacuous :
+  let P := fun l n k => {| p_loc := l; p_name := n; p_payload := k |} in
+  map p_payload (collect_parameters [P 1%N "shared" 1%N; P 1%N "over" 2%N; P 2%N "over" 3%N] [P 1%N "over" 4%N; P 1%N "s" 5%N])
+  = [1; 3; 4; 5]%N.
+Proof. vm_compute. reflexivity. Qed.
+
 Print Assumptions C03_segment_roundtrip.
 Print Assumptions C03_segment_stays_one.
 Print Assumptions C03_layout_joined.
 Print Assumptions C03_joined_ambiguous_refuted.
+Print Assumptions C03_param_merge_spec.
+Print Assumptions C03_param_merge_unique.
+Print Assumptions C03_param_op_level_wins.
+Print Assumptions C03_param_item_level_overridden.
